@@ -268,10 +268,21 @@ struct RawFilter : cppcms::http::raw_content_filter {
 };
 struct MpFilter : cppcms::http::multipart_filter {
     FilterState st;
-    explicit MpFilter(std::string const &q) { st.id = next_filter_id(); st.tag = std::to_string(st.id) + "|" + q; }
+    // rd=all: on_data_ready() reads the whole part (as tests/filter_test.cpp of the repository does) and leaves the read position at
+    // the end; rd=<n>: it sniffs the first n bytes.  What it read is reported as "data:<name>:<length>:<fnv>" before "ready:".
+    long rd = -1;
+    explicit MpFilter(std::string const &q) { st.id = next_filter_id(); st.tag = std::to_string(st.id) + "|" + q; std::string v = query_param(q, "rd"); if (v == "all") rd = 0; else if (!v.empty()) rd = atol(v.c_str()); }
     void on_new_file(cppcms::http::file &f) override { st.ev("new:" + vr::hex(f.name())); }
     void on_upload_progress(cppcms::http::file &f) override { st.ev("progress:" + vr::hex(f.name()) + ":" + std::to_string(f.size())); }
-    void on_data_ready(cppcms::http::file &f) override { st.ev("ready:" + vr::hex(f.name()) + ":" + std::to_string(f.size())); }
+    void on_data_ready(cppcms::http::file &f) override {
+        if (rd >= 0) {
+            std::string got;
+            if (rd == 0) { std::ostringstream ss; ss << f.data().rdbuf(); got = ss.str(); f.data().clear(); }
+            else { got.resize((size_t)rd); f.data().read(&got[0], rd); got.resize((size_t)f.data().gcount()); f.data().clear(); }
+            st.ev("data:" + vr::hex(f.name()) + ":" + std::to_string(got.size()) + ":" + std::to_string(vr::fnv(got)));
+        }
+        st.ev("ready:" + vr::hex(f.name()) + ":" + std::to_string(f.size()));
+    }
     void on_end_of_content() override { st.ends++; st.ev("end"); }
     void on_error() override { st.errors++; if (st.ends) st.error_after_end = true; st.ev("error"); }
 };
